@@ -16,6 +16,7 @@ Section WaitProofs.
 Variable HS : Type.
 Variable handle : HS -> msg -> HS * verdict.
 Variable rl : role.
+Variable pol : policy.
 Variable reply : HS -> bool.
 Hypothesis no_reply : forall h, reply h = false.
 
@@ -30,11 +31,11 @@ Lemma lift_pcons pend e r : lift pend (pcons HS e r) = pbcons HS e (lift pend r)
 Proof. destruct r; reflexivity. Qed.
 
 Lemma feedb_no_reply : forall f h pend m l,
-  feedb HS handle rl reply f h pend m l = lift pend (feed HS handle rl f h m l).
+  feedb HS handle rl pol reply f h pend m l = lift pend (feed HS handle rl pol f h m l).
 Proof.
   induction f as [|f IH]; intros h pend m l; [reflexivity|].
   cbn [Model.feedb Model.feed]. destruct m as [|k lft|]; [| |reflexivity].
-  - destruct (one_msg rl l); try reflexivity.
+  - destruct (one_msg pol rl l); try reflexivity.
     destruct (handle h m) as [h' v]. destruct v; try reflexivity.
     destruct (after m) as [[k len]|]; rewrite IH, lift_pcons; reflexivity.
   - destruct (N.of_nat (length l) <? lft)%N; [reflexivity|].
